@@ -663,6 +663,14 @@ fn type_descs() -> Vec<(D, Probe)> {
     v
 }
 
+/// size and type name of `T::AsParam` for every type of the family
+fn asparams() -> Vec<(usize, &'static str)> {
+    let mut v = vec![];
+    macro_rules! d { ($($t:ty);* $(;)?) => { $( v.push(<$t as BT>::asparam()); )* } }
+    all_types!(d);
+    v
+}
+
 // ------------------------------------------------------------------ facts (tie)
 
 fn host_layouts() -> String {
@@ -735,9 +743,25 @@ fn facts(rep: &mut Report, tier: &str) {
 
     // layouts and single-parameter signatures
     let rt = base_runtime();
-    for (d, pr) in &descs {
+    let aps = asparams();
+    for ((d, pr), (ap_size, ap_name)) in descs.iter().zip(&aps) {
         let ans = drv.ask(&format!("c05 layout {hl} {}", d.lean()));
         rep.evaluations += 1;
+        // `T::AsParam` as the trait impls really define it against the generated AsParam kinds
+        let model_ap = field(&ans, "asparam", 1).join("");
+        let (want_size, want_ptr) = match model_ap.as_str() {
+            "none" => (0, false),
+            "i8" => (1, false),
+            "i16" => (2, false),
+            "i32" | "f32" => (4, false),
+            "f64" => (8, false),
+            "i64" => (8, !matches!(d, D::Prim("u64") | D::Prim("i64"))),
+            _ => (usize::MAX, false),
+        };
+        if *ap_size != want_size || ap_name.starts_with("*mut ") != want_ptr {
+            rep.mismatch("the real `AsParam` of a boundary type differs from the model's parameter kind",
+                json!({"type": d.roto(), "real": [ap_size, ap_name], "model": model_ap}));
+        }
         let rust = field(&ans, "rust", 2).join(" ");
         let roto = field(&ans, "roto", 2).join(" ");
         let real = format!("{} {}", pr.size, pr.align);
@@ -1107,7 +1131,7 @@ fn main() {
                 libc::setrlimit(libc::RLIMIT_CORE, &lim);
             }
             let seed: u64 = args[2].parse().unwrap();
-            let rounds = if args[3] == "thorough" { 400 } else { 40 };
+            let rounds = if args[3] == "thorough" { 1200 } else { 40 };
             let (from, n): (u64, u64) = (args[4].parse().unwrap(), args[5].parse().unwrap());
             run_range(&Env { seed, rounds }, from, n).emit();
         }
